@@ -70,6 +70,8 @@ def oracle(case, rec=None):
         rec.cls("outcome-" + kind, "entry-" + case.get("entry", "main"), case["cfg"]["accel"])
         for o in ops:
             rec.cls("op-" + o)
+        for c in case["spec"].get("corners", []):
+            rec.cls("corner-" + c.split("/")[0], "corner-%s-%s" % (c.split("/")[0], kind))
         nontrivial = kind == "rejected"
         if kind == "ok":
             npu = any(o["custom_code"] == "ethos-u" for sg in info["subgraphs"] for o in sg["ops"])
@@ -85,7 +87,13 @@ def strategy(profile="wide"):
 
     @st.composite
     def case(draw):
-        spec = draw(tflgen.network(profile, max_ops=7, big=True))
+        if profile == "corners":
+            import corners
+
+            spec = draw(tflgen.network(draw(st.sampled_from(["wide", "npu", "npu", "slices"])), max_ops=4, big=False))
+            spec = corners.apply(spec, draw, st)
+        else:
+            spec = draw(tflgen.network(profile, max_ops=7, big=True))
         cfg = draw(tflgen.config())
         entry = draw(st.sampled_from(["main"] * 8 + ["convert", "convert_bytes"]))
         if entry == "main" and draw(st.integers(0, 3)) == 0:
@@ -103,7 +111,7 @@ def compiles(ctx, arg, rec):
 def parts(ctx):
     q = ctx.quick
     return [Part("wide%02d" % i, compiles, (i, 45 if q else 2000, "wide")) for i in range(12)] + [Part("npu%02d" % i, compiles, (i, 45 if q else 1000, "npu")) for i in range(4)] + [
-        Part("reshapes%02d" % i, compiles, (i, 40 if q else 1500, "reshapes")) for i in range(4)] + [Part("fanout%02d" % i, compiles, (i, 40 if q else 1500, "fanout")) for i in range(2)]
+        Part("reshapes%02d" % i, compiles, (i, 40 if q else 1500, "reshapes")) for i in range(4)] + [Part("corners%02d" % i, compiles, (i, 50 if q else 2000, "corners")) for i in range(4)] + [Part("fanout%02d" % i, compiles, (i, 40 if q else 1500, "fanout")) for i in range(2)]
 
 
 def replay(ctx, case):
